@@ -49,6 +49,8 @@ type MemStore struct {
 	scn  int
 	recs []MemRec
 	caps CapsIn
+	// unsorted: the storage hands the records over in the order of the case, which need not be the time order
+	unsorted bool
 }
 
 func (m *MemStore) Capabilities() (c logqlengine.QuerierCapabilities) {
@@ -77,12 +79,14 @@ func (m *MemStore) SelectLogs(_ context.Context, start, end otelstorage.Timestam
 	var ids []int
 	recs := make([]MemRec, len(m.recs))
 	copy(recs, m.recs)
-	sort.SliceStable(recs, func(i, j int) bool {
-		if recs[i].TS[0] != recs[j].TS[0] {
-			return recs[i].TS[0] < recs[j].TS[0]
-		}
-		return recs[i].TS[1] < recs[j].TS[1]
-	})
+	if !m.unsorted {
+		sort.SliceStable(recs, func(i, j int) bool {
+			if recs[i].TS[0] != recs[j].TS[0] {
+				return recs[i].TS[0] < recs[j].TS[0]
+			}
+			return recs[i].TS[1] < recs[j].TS[1]
+		})
+	}
 	shared := map[string]pcommon.Map{}
 next:
 	for _, r := range recs {
